@@ -56,6 +56,9 @@ def fp_lit(hexs, bits):
     return '(fp #b%s #b%s #b%s)' % (s[0], s[1:9], s[9:])
 
 
+PANIC_KINDS = ('panic', 'nil', 'bounds', 'ifacecmp', 'divzero', 'shift', 'typeassert', 'callee-may-panic', 'pre')
+
+
 class Exec:
     def __init__(self, vc, func, contract, prefix='', depth=0, top=None):
         self.vc = vc
@@ -93,6 +96,12 @@ class Exec:
     def oblige(self, kind, clause, guard, goal, tags=(), line=0, site=None, skolems=None):
         if site is None:
             site = '%s%d' % (kind, self.vc.site(kind))
+        tc = self.top.contract
+        if kind in PANIC_KINDS and tc is not None and getattr(tc, 'maypanic', False) and not tc.nopanic:
+            # a function that is allowed to panic: the path simply ends here when the condition fails (every caller
+            # of oblige for these kinds assumes the condition afterwards)
+            self.vc.waived_panics.append('%s: %s' % (kind, clause))
+            return None
         tg = list(tags)
         if self.top.contract is not None:
             tg += [t for t in self.top.contract.tags if t not in tg]
@@ -177,6 +186,8 @@ class Exec:
             # interface contract checked on an implementation: the interface's parameter names alias ours
             for nme, p in zip(self.contract.param_names, self.f.params[1:]):
                 env.setdefault(nme, self.vals[p['n']])
+        for nme, pn in (getattr(self.contract, 'param_alias', None) or {}).items():
+            env.setdefault(nme, self.vals[pn])
         return env
 
     # ---- main loop ----------------------------------------------------------------------
@@ -1380,6 +1391,8 @@ class Exec:
             return models.builtin(self, ins, callee)
         if how == 'model':
             vc.external_models.add(callee)
+            if self.contract is not None and self.contract.callsites and self.top is self:
+                self.callsite_obligations(ins, callee, [self.op(a) for a in self.call_actuals(call)])
             return models.MODELS[callee]['fn'](self, ins)
         actuals = [self.op(a) for a in self.call_actuals(call)]
         self.callsite_obligations(ins, callee, actuals)
@@ -1425,6 +1438,12 @@ class Exec:
                 continue
             env = self.param_env()
             env.update(self.named)
+            # the caller's own variables stay reachable when a callee parameter has the same name; argN = N-th actual
+            for k_, v_ in list(env.items()):
+                env.setdefault('caller_' + k_, v_)
+            for i_, a_ in enumerate(actuals):
+                if isinstance(a_, V):
+                    env['arg%d' % i_] = a_
             if cf is not None:
                 for p, a in zip(cf.params, actuals):
                     if isinstance(a, V):
